@@ -60,6 +60,23 @@ package keeper
 //@   modifies store(ctx, "assets"), store(ctx, "delegation")
 
 // Slash: a reported failure leaves no trace, and a slash id is executed at most once.
+// per pending undelegation visited: the reduction computed by SlashFromUndelegation (under contract above) is
+// recorded exactly when there is one; the callback never fails, so the iteration is never cut short
+//@ func (*Keeper).SlashAssets$1
+//@   requires undelegation != nil && executionInfo != nil && !isnil(undelegation.Amount) && !isnil(undelegation.ActualCompletedAmount) && !isnil(newSlashProportion)
+//@   requires val(undelegation.ActualCompletedAmount) >= 0 && val(undelegation.Amount) >= 0 && val(newSlashProportion) >= 0
+//@   modifies *undelegation, *executionInfo, heap["x/operator/types.SlashFromUndelegation"]
+//@   ensures[C04.sa1.noerr]  err == nil
+//@   ensures[C04.sa1.record] res_SlashFromUndelegation_0 != nil ==>
+//@        len(executionInfo.SlashUndelegations) == old(len(executionInfo.SlashUndelegations)) + 1 &&
+//@        executionInfo.SlashUndelegations[old(len(executionInfo.SlashUndelegations))].StakerID == old(undelegation.StakerID) &&
+//@        executionInfo.SlashUndelegations[old(len(executionInfo.SlashUndelegations))].AssetID == old(undelegation.AssetID) &&
+//@        val(executionInfo.SlashUndelegations[old(len(executionInfo.SlashUndelegations))].Amount) ==
+//@             old(val(undelegation.ActualCompletedAmount)) - val(undelegation.ActualCompletedAmount)
+//@   ensures[C04.sa1.none]   res_SlashFromUndelegation_0 == nil ==> executionInfo.SlashUndelegations == old(executionInfo.SlashUndelegations) &&
+//@        *undelegation == old(*undelegation)
+//@   ensures[C04.sa1.pools]  executionInfo.SlashAssetsPool == old(executionInfo.SlashAssetsPool)
+
 // per asset pool of the slashed operator: the pool loses trunc(p * amount), the loss is recorded, nothing grows;
 // a pool slashed to zero has no shares left (C02: shares are zero whenever the pool amount is zero). The last
 // requires is the C02 store invariant instance "no delegator list => no shares" for this pool.
